@@ -1,17 +1,19 @@
 #!/bin/bash
-# seedtest.sh <patch.diff> <prop> [tier]: apply a seeded change to /repo, run the check of <prop>, undo.
-P=$1; PROP=$2; TIER=${3:-quick}
+# seedtest.sh <patch.diff> <prop>[,<prop>...] [tier]: apply a seeded change to /repo, run the checks, undo.
+P=$1; PROPS=$2; TIER=${3:-quick}
 cd /repo || exit 2
 if [ -n "$(git status --porcelain)" ]; then echo "repo not clean"; exit 2; fi
-if ! git apply --3way "$P" 2>/tmp/seedtest_apply.err; then
-  if ! git apply "$P" 2>>/tmp/seedtest_apply.err; then echo "APPLY-FAILED"; cat /tmp/seedtest_apply.err | head -5; git checkout -q -- . ; git reset -q; exit 3; fi
+if ! git apply "$P" 2>/tmp/seedtest_apply.err; then
+  if ! git apply --3way "$P" 2>>/tmp/seedtest_apply.err; then echo "APPLY-FAILED"; head -5 /tmp/seedtest_apply.err; git checkout -q -- . ; git reset -q; exit 3; fi
 fi
 git reset -q
 cd /verif
-timeout 3000 ./check $PROP --tier $TIER > /tmp/seedtest_out.txt 2>&1
-RC=$?
-echo "rc=$RC"
-grep -c "^VIOLATION" /tmp/seedtest_out.txt
-grep "^VIOLATION\|^KNOWN" /tmp/seedtest_out.txt | head -3
-cd /repo && git checkout -q -- . && git clean -fdq
+for PROP in ${PROPS//,/ }; do
+  s=$(date +%s)
+  timeout 3000 ./check $PROP --tier $TIER > /tmp/seedtest_out_$PROP.txt 2>&1
+  RC=$?
+  echo "$PROP rc=$RC $(( $(date +%s)-s ))s violations=$(grep -c '^VIOLATION' /tmp/seedtest_out_$PROP.txt) concrete=$(grep '^VIOLATION' /tmp/seedtest_out_$PROP.txt | grep -vc no-failing-input-found)"
+  grep "^VIOLATION" /tmp/seedtest_out_$PROP.txt | head -2
+done
+cd /repo && git checkout -q -- . && git clean -fdq -e target
 git status --porcelain | head -3
